@@ -3,7 +3,7 @@
    C21 on the transcribed operations for every operation of OpsOf (design check: the Heads-based classification of
    _update_revisions and the left-hand walk of _check_history_violation satisfy the declaratively stated tip /
    revno / append-only rules), and exports (a sample of) the cases with their operations for replay.
-   Operations travel as tuples <<op, ow, ao, stop, lr, bound>> (booleans as 0/1). *)
+   Operations travel as tuples <<op, ow, ao, stop, lr, bound>> (ow: the overwrite form 0..4; booleans as 0/1). *)
 EXTENDS HistoryGenLib, Json, IOUtils
 Cases == {[par |-> x[1], t |-> x[2], s |-> x[3]] : x \in Triples}
 \* one initial state per graph (cheap), its cases as successor states: TLC's workers share the law evaluation
@@ -24,19 +24,23 @@ FastAgreesWithDag == IsCase =>
 \* anti-vacuity: TLC must reach these
 Outs(x) == {<<o, OpOut(x.par, x.t, x.s, o)>> : o \in OpsOf(x.par, x.t, x.s)}
 WDivergedGhost(x) == Ghosts(x.par) # {} /\ \E p \in Outs(x) : p[1].op = "pull" /\ p[2].exc = "DivergedBranches"
-WAppendRefusal(x) == \E p \in Outs(x) : p[1].op = "pull" /\ ~p[1].ow /\ p[2].exc = "AppendRevisionsOnlyViolation"
+WAppendRefusal(x) == \E p \in Outs(x) : p[1].op = "pull" /\ ~OwHistory(p[1].ow) /\ p[2].exc = "AppendRevisionsOnlyViolation"
 WStopMoves(x) == \E p \in Outs(x) : p[1].op = "push" /\ p[1].stop # Null /\ p[2].tip = p[1].stop /\ p[2].tip # x.t
                                          /\ IsMerge(x.par, p[2].tip)
-WNoOp(x) == \E p \in Outs(x) : p[1].op = "pull" /\ ~p[1].ow /\ p[2].exc = "" /\ p[2].tip = x.t /\ x.s # x.t /\ x.s # Null
-OpTuple(o) == <<o.op, B2N(o.ow), B2N(o.ao), o.stop, B2N(o.lr), B2N(o.bound)>>
+WNoOp(x) == \E p \in Outs(x) : p[1].op = "pull" /\ ~OwHistory(p[1].ow) /\ p[2].exc = "" /\ p[2].tip = x.t /\ x.s # x.t /\ x.s # Null
+\* a tags-only overwrite of diverged branches is refused, while a history overwrite of the same pair moves the tip
+WTagsOnly(x) == \E p, q \in Outs(x) : /\ p[1].op = q[1].op /\ p[1].ow = 3 /\ q[1].ow = 2 /\ p[1].stop = q[1].stop /\ ~p[1].ao /\ ~q[1].ao
+                                        /\ p[2].exc = "DivergedBranches" /\ q[2].exc = "" /\ q[2].tip # x.t
+OpTuple(o) == <<o.op, o.ow, B2N(o.ao), o.stop, B2N(o.lr), B2N(o.bound)>>
 CaseRow(x) == LET ops == SetToSeq(OpsOf(x.par, x.t, x.s)) IN [c |-> x, ops |-> [i \in DOMAIN ops |-> OpTuple(ops[i])]]
 \* anti-vacuity: each of these must be reached by some case (checked in the export run: VF_WITNESSES)
 WitnessesReached ==
-    /\ \E x \in Cases : WDivergedGhost(x)
-    /\ \E x \in Cases : WAppendRefusal(x)
-    /\ \E x \in Cases : WStopMoves(x)
-    /\ \E x \in Cases : WNoOp(x)
-Export == JsonSerialize(IOEnv.VF_OUT, SetToSeq({CaseRow(x) : x \in Sample(Cases)}))
+    /\ \E x \in SmallOnly(Cases) : WDivergedGhost(x)
+    /\ \E x \in SmallOnly(Cases) : WAppendRefusal(x)
+    /\ \E x \in SmallOnly(Cases) : WStopMoves(x)
+    /\ \E x \in SmallOnly(Cases) : WNoOp(x)
+    /\ \E x \in SmallOnly(Cases) : WTagsOnly(x)
+Export == JsonSerialize(IOEnv.VF_OUT, SetToSeq({CaseRow(x) : x \in Picked(Cases)}))
 ASSUME IF "VF_OUT" \in DOMAIN IOEnv THEN Export ELSE TRUE
 ASSUME IF "VF_WITNESSES" \in DOMAIN IOEnv THEN WitnessesReached ELSE TRUE
 =============================================================================
